@@ -239,3 +239,9 @@ package hcl
 //@ maypanic
 //@ ensures marks: len(ret1) == 0 ==> (forall k iface :: { marked(ret0, k) } marked(old(val), k) ==> marked(ret0, k))
 //@ loop 1 invariant len(diags) == 0 ==> (forall k iface :: { marked(current, k) } marked(val, k) ==> marked(current, k))
+
+// A static expression wraps a value and a range: building one writes nothing.
+// verif:func StaticExpr
+//@ props C18,C06
+//@ assigns nothing
+
